@@ -208,7 +208,7 @@ func Names(es []Entry) string {
 }
 
 // FaultReader yields data[:cut] and then EOF (mode "eof") or an error (mode
-// "err"); with chunk>0 every Read returns at most chunk bytes.
+// "err", or one that wraps io.EOF: mode "wrapeof"); with chunk>0 every Read returns at most chunk bytes.
 type FaultReader struct {
 	Data  []byte
 	Cut   int // -1 = no cut
@@ -218,6 +218,7 @@ type FaultReader struct {
 }
 
 var ErrInjected = fmt.Errorf("injected read fault")
+var ErrWrappedEOF = fmt.Errorf("connection lost: %w", io.EOF)
 
 func (f *FaultReader) Read(p []byte) (int, error) {
 	end := len(f.Data)
@@ -227,6 +228,9 @@ func (f *FaultReader) Read(p []byte) (int, error) {
 	if f.pos >= end {
 		if f.Cut >= 0 && f.Cut < len(f.Data) && f.Mode == "err" {
 			return 0, ErrInjected
+		}
+		if f.Cut >= 0 && f.Cut < len(f.Data) && f.Mode == "wrapeof" {
+			return 0, ErrWrappedEOF // a failure, not an end: errors.Is(err, io.EOF) holds, err == io.EOF does not
 		}
 		return 0, io.EOF
 	}
